@@ -82,17 +82,27 @@ def compute(case):
     from astropy.wcs.utils import wcs_to_celestial_frame
     from regions._utils.wcs_helpers import pixel_scale_angle_at_skycoord
     wd = case['wcs']
-    wcs = build_wcs(wd)
+    h = case.get('history')
+    # history mode (see c06.py): the region object and the WCS object may have been used before with other parameters /
+    # settings; the oracle and the model below know only the FINAL parameters (a fresh object) and the final WCS state
+    wcs = build_wcs(h['warm_wcs'] if h and h.get('warm_wcs') else wd)
     frame = wcs_to_celestial_frame(wcs)
     d = case['region']
-    sreg = build_sky(d, frame)
+    probe = wcs.pixel_to_world(wd['crpix'][0], wd['crpix'][1])
+    sreg, first, notes = C6.run_history(h, lambda dd: build_sky(dd, frame), d, wcs, wd, lambda r: r.to_pixel(wcs),
+                                        lambda r: r.contains(probe, wcs))
+    fresh = build_sky(d, frame)
     try:
         pix = sreg.to_pixel(wcs)
+        if first is not None:
+            notes['shared'] = C6.shared_parts(first, pix)
+            C6.mutate_result(first)
     except Exception as e:
         return {'exc': f'{type(e).__name__}: {e}'}
-    cs = C6.canon_sky(sreg)
-    out = {'sky': cs, 'pix': canon_pix(pix), 'model_region': model_sky(d, sreg)}
-    center = sreg.center
+    cs = C6.canon_sky(fresh)
+    out = {'sky': cs, 'pix': canon_pix(pix), 'model_region': model_sky(d, fresh), 'notes': notes,
+           'object_state_ok': C6.canon_sky(sreg) == cs}
+    center = fresh.center
     x0, y0 = (float(v) for v in wcs.world_to_pixel(center))
     out['p0'] = [x0, y0]
     alpha = Angle(d['angle'][0], d['angle'][1]) if 'angle' in d else Angle(0.0, 'deg')
@@ -168,6 +178,7 @@ class Check(PropertyCheck):
             'ICRS/FK5/Galactic x reference |lat|<85; circle/ellipse/rectangle/circle-, ellipse-, rectangle-annulus sky regions with sizes '
             'of 1-50 pixels, any angle in deg/rad/arcmin/hourangle, sizes in arcsec/arcmin/deg, centres within min(300 px, 1 deg) of the '
             'reference pixel (beyond 1 deg off-axis a TAN/SIN projection is not a similarity to 1e-3: radial/tangential scales differ by theta^2/2). '
+            'HISTORY MODE (40% of the cases): the region object is first built with other parameters and/or the WCS object with other settings, converted / queried once, then every parameter is re-assigned through the public setters and/or the WCS is edited in place (crval/crpix/cdelt/pc + set()), the first result is mutated by the caller, and only then the compared conversion is made; the model and the oracle know only the final parameters and the final WCS; two successive results must not share PixCoord/meta/visual objects. '
             'Oracle: SkyCoord.directional_offset_by + wcs.world_to_pixel only. Non-trivial = every case (a sized region with 4-8 end points).')
     assumptions = ['PARTIAL PROOF: the WCS is a parameter; the theorems assume it is, around the centre, a similarity of standard parity '
                    '(toPix(c + (PA, rho)) = p0 + rho/s * rot(PA) n); a real TAN/SIN WCS is one only to first order: the run bounds the region '
@@ -187,8 +198,10 @@ class Check(PropertyCheck):
             wd = gen_wcs(rng, projs=['TAN', 'SIN'], frames=['icrs', 'fk5', 'galactic'], parities=(1,), log10_scale=(-5.0, -2.0))
             wcs = build_wcs(wd)
             for kind in KINDS:
-                cases.append({'kind': kind, 'wcs': wd, 'region': gen_region(rng, wd, wcs, kind),
-                              'extra_pa': rng.uniform(0.0, 360.0)})
+                case = {'kind': kind, 'wcs': wd, 'region': gen_region(rng, wd, wcs, kind), 'extra_pa': rng.uniform(0.0, 360.0)}
+                if rng.random() < C6.HISTORY_P:
+                    case['history'] = C6.gen_history(rng, wd, case['region'], 'sky', keep_parity=True)
+                cases.append(case)
         del _PENDING[:]
         _PENDING.extend(cases)
         return cases
@@ -276,6 +289,12 @@ class Check(PropertyCheck):
         if 'exc' in real:
             bad('exception', real['exc'])
             return V
+        hist = case.get('history')
+        htxt = f' [history: {hist["mode"]}, warm call {hist["warm_call"]}, first result mutated: {hist["mutate_first"]}]' if hist else ''
+        if (real.get('notes') or {}).get('shared'):
+            bad('results_share_state', f'two successive to_pixel() results of the same object share {real["notes"]["shared"]}{htxt}')
+        if not real.get('object_state_ok', True):
+            bad('harness_assumption', 'after re-assigning every parameter the object does not hold the final parameters' + htxt)
         if not real['parity_cross'] > 0:
             bad('harness_assumption', 'generated WCS is not of standard parity')
             return V
@@ -289,7 +308,7 @@ class Check(PropertyCheck):
         x0, y0 = real['p0']
         cx, cy = float(pix['c'][0]), float(pix['c'][1])
         if math.hypot(cx - x0, cy - y0) > 1e-6 * max(size, 1.0):
-            bad('centre_not_wcs_image', f'centre ({cx}, {cy}) vs world_to_pixel(centre) ({x0}, {y0})')
+            bad('centre_not_wcs_image', f'centre ({cx}, {cy}) vs world_to_pixel(centre) ({x0}, {y0}){htxt}')
         if 'dir' in pix:
             D = (float(pix['dir'][0]), float(pix['dir'][1]))
         else:
@@ -332,4 +351,5 @@ class Check(PropertyCheck):
         return 'exc' not in real and len(real.get('ends', [])) >= 4
 
     def bucket(self, case, real):
-        return f"{case['kind']}/{case['wcs']['proj']}/{case['wcs']['frame']}"
+        h = case.get('history')
+        return f"{case['kind']}/{case['wcs']['proj']}/{case['wcs']['frame']}/{'history-' + h['mode'] if h else 'fresh'}"
